@@ -1,6 +1,7 @@
 package main
 
 import (
+	"go/types"
 	"go/token"
 	"strings"
 
@@ -169,6 +170,38 @@ func r11_1(c *RC) {
 			matchDesc = describe(bo)
 		}
 	})
+	if len(matchEdges) == 0 {
+		// the comparison loop may live in a helper that returns its verdict
+		instrs(fn, func(b *ssa.BasicBlock, _ int, in ssa.Instruction) {
+			iff, ok := in.(*ssa.If)
+			if !ok {
+				return
+			}
+			cv, neg := condAtom(iff.Cond)
+			call, ok := cv.(*ssa.Call)
+			if !ok {
+				return
+			}
+			pwIdx, ok := credMatchHelper(call.Common().StaticCallee())
+			if !ok || pwIdx >= len(call.Common().Args) {
+				return
+			}
+			fromInput := false
+			for _, l := range LeavesX(p, fn, call.Common().Args[pwIdx], 0) {
+				if _, isMake := l.(*ssa.MakeSlice); isMake {
+					fromInput = true
+				}
+			}
+			if fromInput {
+				idx := 0
+				if neg {
+					idx = 1
+				}
+				matchEdges = append(matchEdges, edge{b, idx})
+				matchDesc = "verdict of " + fnName(call.Common().StaticCallee())
+			}
+		})
+	}
 	if len(matchEdges) == 0 {
 		c.Undecided("credential-match", fn.Pos(), "cannot find the credential comparison (c.User == user && c.Password == password with the password read from the connection) in handleAuthentication; the accepted idiom is an == comparison of both fields of the same configured credential")
 		return
@@ -346,11 +379,17 @@ func r11_3(c *RC) {
 				return true
 			}
 			if iff, ok := from.Instrs[len(from.Instrs)-1].(*ssa.If); ok {
-				if f := fieldOrigin(iff.Cond); f != nil && f.Name() == "ClientSideAuthentication" {
-					// cut the edge on which authentication is legitimately skipped
+				cv, neg := condAtom(iff.Cond)
+				if f := fieldOrigin(cv); f != nil && f.Name() == "ClientSideAuthentication" {
+					// cut the edge on which authentication is legitimately
+					// skipped; the flag may be tested directly or through a
+					// negated local (authAtServer := !ClientSideAuthentication)
 					skipIdx := 1
 					if sd.csaSkip {
 						skipIdx = 0
+					}
+					if neg {
+						skipIdx = 1 - skipIdx
 					}
 					if idx == skipIdx {
 						return true
@@ -526,8 +565,14 @@ func r11_4(c *RC) {
 					inner, ok := call.Common().Args[0].(*ssa.Call)
 					return ok && calleeName(inner) == "GetSocks5Authentication"
 				}
-				if isLenAuth(bo.X) && bo.Op == token.GTR && idx == 1 {
-					return true // assume credentials configured
+				// assume credentials configured: cut the edge on which the
+				// count is zero, however the test is spelled
+				isZero := func(v ssa.Value) bool { k, ok := constInt(v); return ok && k == 0 }
+				isOne := func(v ssa.Value) bool { k, ok := constInt(v); return ok && k == 1 }
+				nonEmpty := cmpForm(bo, token.GTR, isLenAuth, isZero) || cmpForm(bo, token.NEQ, isLenAuth, isZero) || cmpForm(bo, token.GEQ, isLenAuth, isOne)
+				empty := cmpForm(bo, token.EQL, isLenAuth, isZero) || cmpForm(bo, token.LEQ, isLenAuth, isZero) || cmpForm(bo, token.LSS, isLenAuth, isOne)
+				if (nonEmpty && idx == 1) || (empty && idx == 0) {
+					return true
 				}
 			}
 		}
@@ -542,4 +587,70 @@ func r11_4(c *RC) {
 	} else {
 		c.OKH("http-proxy-exclusion", goHTTP.Pos(), "credentials configured: the HTTP proxy goroutine is reachable only past log.Fatalf")
 	}
+}
+
+
+// credMatchHelper: fn returns true only on the edge where a configured
+// credential's User equals one parameter and its Password equals another
+// (returned index: the password parameter), and false otherwise.
+func credMatchHelper(fn *ssa.Function) (int, bool) {
+	if fn == nil || fn.Blocks == nil || relPkg(fn) != s5Pkg || fn.Signature.Results().Len() != 1 {
+		return 0, false
+	}
+	if bt, ok := fn.Signature.Results().At(0).Type().Underlying().(*types.Basic); !ok || bt.Kind() != types.Bool {
+		return 0, false
+	}
+	paramOf := func(v ssa.Value) int {
+		for _, l := range Leaves(v, nil) {
+			for i, prm := range fn.Params {
+				if ssa.Value(prm) == l {
+					return i
+				}
+			}
+		}
+		return -1
+	}
+	pwIdx := -1
+	good := true
+	sawTrue := false
+	instrs(fn, func(b *ssa.BasicBlock, _ int, in ssa.Instruction) {
+		r, ok := in.(*ssa.Return)
+		if !ok {
+			return
+		}
+		k, isK := retVal(r, 0).(*ssa.Const)
+		if !isK || k.Value == nil {
+			good = false
+			return
+		}
+		if k.Value.String() != "true" {
+			return
+		}
+		userOK, pwOK := false, false
+		for _, ce := range controllingEdges(b) {
+			bo, ok := ce.If.Cond.(*ssa.BinOp)
+			if !ok || bo.Op != token.EQL || ce.Idx != 0 {
+				continue
+			}
+			for _, pair := range [][2]ssa.Value{{bo.X, bo.Y}, {bo.Y, bo.X}} {
+				f := fieldOrigin(pair[0])
+				if f == nil {
+					continue
+				}
+				if f.Name() == "User" && paramOf(pair[1]) >= 0 {
+					userOK = true
+				}
+				if f.Name() == "Password" && paramOf(pair[1]) >= 0 {
+					pwOK = true
+					pwIdx = paramOf(pair[1])
+				}
+			}
+		}
+		if userOK && pwOK {
+			sawTrue = true
+		} else {
+			good = false
+		}
+	})
+	return pwIdx, good && sawTrue && pwIdx >= 0
 }
